@@ -32,7 +32,7 @@ for k in sorted(os.listdir(base)):
     if os.path.exists(os.path.join(d, "patch.diff")) and os.path.getsize(os.path.join(d, "patch.diff")) > 0:
         if not only or any(k.startswith(o) for o in only):
             work.append((d, k))
-with ProcessPoolExecutor(6) as ex:
+with ProcessPoolExecutor(int(os.environ.get("REFAC_JOBS", "12"))) as ex:
     for name, out in ex.map(one, work):
         if not out:
             print(f"{name}: silent on all 20")
